@@ -35,7 +35,7 @@ import (
 func TestVerifC14rtConcurrent(t *testing.T) {
 	st := vstat.New("C14", "profiledb.concurrent-use",
 		"three reader goroutines look every key up and use the returned records (IsBlocked with blocked-name probes, rate limiter Check, Authenticate for non-bcrypt hashes, Config accessors) while the main goroutine performs 2-4 full syncs of rapid-drawn snapshots (fresh ones and near misses) that each publish and then store; answers must be those of a snapshot between the last finished and the last started sync, a restarted database must equal the last snapshot; non-trivial = at least one lookup overlapped a sync; distinct by the snapshots",
-		"lookup-during-sync", "record-used-during-sync", "restart-equals-last-snapshot")
+		"lookup-during-sync", "record-used-during-sync", "restart-equals-last-snapshot", "zoned-ipv6-key")
 	st.Finish(t)
 	vc14rtNeedZones(t)
 
@@ -247,6 +247,10 @@ func TestVerifC14rtConcurrent(t *testing.T) {
 		}
 
 		cl := []string{"restart-equals-last-snapshot"}
+		if last.zoned() {
+			cl = append(cl, "zoned-ipv6-key")
+		}
+
 		nt := ""
 		if overlapped.Load() > 0 {
 			cl = append(cl, "lookup-during-sync")
